@@ -166,7 +166,12 @@ class Writer:
             forms += ["arr@(v+b)", "arr@(k*v)", "(v*k)@arr", "consts.dot(v)", "v.dot(consts)", "(v+b).dot(consts)"]
             if len(set(cs)) == 1 and cs[0] != 0:
                 forms += ["c*(v**1).sum()", "c*(v*1).sum()"]
+            # a number / an array on the LEFT of '-' with a vector *expression* on the right (reflected subtraction), and weights applied
+            # to shifted vector expressions through a constant matrix
+            forms += ["arr@(b-k*v)", "(b0-k*v)@arr", "(b-M@v)[i]", "(M@(v-s))[i]", "(b-(v+t)).dot(consts)"]
         f = rng.choice(forms)
+        if getattr(self, "force", None) in forms:
+            f = self.force
         arr = ["arr", cs]
         if all(float(c).is_integer() and 0 <= c < 200 for c in cs) and rng.random() < 0.6:
             # the user's data as an unsigned / narrow integer array (prices, counts): same numbers, another dtype
@@ -213,7 +218,35 @@ class Writer:
         if f == "(v*k)@arr":
             k = rng.choice([2.0, 0.5, -1.0, 4.0])
             return ["matmul", ["vbin", "*", vecnode, ["raw", k, "float"]], ["arr", [c / k for c in cs]]], 0.0
+        if f == "arr@(b-k*v)":
+            k = rng.choice([2.0, 0.5, -1.0, 4.0])
+            bs = [q(rng, -2, 2) for _ in range(n)]
+            # (-c/k) . (b - k v) = c.v - (c.b)/k
+            return ["matmul", ["arr", [-c / k for c in cs]], ["vrbin", "-", ["arr", bs], ["vbin", "*", vecnode, ["raw", k, "float"]]]], -sum(c * b for c, b in zip(cs, bs)) / k
+        if f == "(b0-k*v)@arr":
+            k = rng.choice([2.0, 0.5, -1.0, 4.0])
+            b0 = q(rng, -2, 2, nz=True)
+            return ["matmul", ["vrbin", "-", ["raw", b0, "float"], ["vrbin", "*", ["raw", k, "float"], vecnode]], ["arr", [-c / k for c in cs]]], -sum(cs) * b0 / k
+        if f == "(b-M@v)[i]":
+            rows = rng.randint(1, 3)
+            i = rng.randrange(rows)
+            M = [[q(rng, -2, 2) for _ in range(n)] for _ in range(rows)]
+            M[i] = [-c for c in cs]
+            bs = [q(rng, -2, 2, nz=True) for _ in range(rows)]
+            return ["el", ["vrbin", "-", [rng.choice(["arr", "list"]), bs], ["mv", M, vecnode]], i], bs[i]
+        if f == "(M@(v-s))[i]":
+            rows = rng.randint(1, 3)
+            i = rng.randrange(rows)
+            M = [[q(rng, -2, 2) for _ in range(n)] for _ in range(rows)]
+            M[i] = list(cs)
+            ss = [q(rng, -2, 2) for _ in range(n)]
+            return ["el", ["mv", M, ["vbin", "-", vecnode, ["arr", ss]]], i], -sum(c * t for c, t in zip(cs, ss))
         consts = ["velems", [["const", float(c), "float"] for c in cs]]
+        if f == "(b-(v+t)).dot(consts)":
+            b0 = q(rng, -2, 2, nz=True)
+            t = q(rng, -2, 2)
+            # (b0 - (v + t)) . (-c) = c.v + (t - b0) sum(c)
+            return ["dot", ["vrbin", "-", ["raw", b0, "float"], ["vbin", "+", vecnode, ["raw", t, "float"]]], ["velems", [["const", float(-c), "float"] for c in cs]]], (t - b0) * sum(cs)
         if f == "consts.dot(v)":
             return ["dot", consts, vecnode], 0.0
         if f == "v.dot(consts)":
@@ -617,6 +650,113 @@ def draw_lp(rng, layout=None, kind="any", risky=True, max_rows=5, tiny_rows=Fals
     }
 
 
+# every vector spelling of the writer, for the directed sweeps (forced one at a time through Writer.force)
+VECTOR_FORMS = ["arr@v", "v@arr", "list@", "mv-el", "c*sum", "sum*c", "sum/d", "arr@(v+b)", "arr@(k*v)", "(v*k)@arr", "consts.dot(v)", "v.dot(consts)",
+                "(v+b).dot(consts)", "c*(v**1).sum()", "c*(v*1).sum()", "arr@(b-k*v)", "(b0-k*v)@arr", "(b-M@v)[i]", "(M@(v-s))[i]", "(b-(v+t)).dot(consts)"]
+BLOCK_FORMS = ["b-M@v", "M@(v-s)", "b0-k*v", "X-vs-array", "k*X-c-vs-array", "array-vs-X"]
+
+
+def form_lp(rng, form, sense, bare_objective=False):
+    """A small LP whose single general constraint (or, with bare_objective, whose whole objective) is ONE vector node written in the
+    spelling `form`, and whose optimum lies on that constraint (the objective pushes against it inside a box): a wrong constant, sign or
+    coefficient of the extracted row moves the returned point off the written constraint.  Same record layout as draw_lp."""
+    n = rng.randint(2, 4)
+    decls = [{"k": "vec", "name": "x", "n": n, "lb": 0.0, "ub": 6.0}]
+    W = Writer(rng, decls, risky=True)
+    names = list(W.names)
+    equal = form in ("c*sum", "sum*c", "sum/d", "c*(v**1).sum()", "c*(v*1).sum()")
+    k0 = rng.choice([1.0, 2.0, 0.5, 4.0])
+    coef = {nm: (k0 if equal else abs(q(rng, 1, 3, nz=True))) for nm in names}
+    W.force = form
+    node, const = W.vector_piece(["vec", "x"], names, coef)
+    W.force = None
+    feas = {nm: 1.0 + int(8 * rng.random()) / 4 for nm in names}
+    at = sum(coef[nm] * feas[nm] for nm in names)
+    if bare_objective:
+        # the whole objective is the node (constant included); one plain row keeps it bounded
+        sense_o = rng.choice(["min", "max"])
+        rows = [{"coef": {nm: 1.0 for nm in names}, "sense": "<=", "rhs": sum(feas.values()) + 1.0}]
+        cons = [["rel", "<=", ["sum", ["vec", "x"]], ["raw", rows[0]["rhs"], "float"], "direct"]]
+        return {"bound_edits": {}, "decls": decls, "layout": "form-sweep/objective:" + form, "kind": "optimal", "c": dict(coef), "c0": const, "sense": sense_o,
+                "rows": rows, "objective": node, "constraints": cons}
+    # node = coef.x + const ;  written as  node (s) at + const
+    rhs_written = at + const
+    obj_sense = {"<=": "max", ">=": "min", "==": rng.choice(["min", "max"])}[sense]
+    c = {nm: 1.0 + 0.25 * i for i, nm in enumerate(names)}
+    obj = None
+    for nm, v in c.items():
+        t = ["bin", "*", ["raw", v, "float"], W.elem[nm]]
+        obj = t if obj is None else ["bin", "+", obj, t]
+    rows = [{"coef": dict(coef), "sense": sense, "rhs": at}]
+    cons = [["rel", sense, node, ["raw", rhs_written, "float"], "direct"]]
+    return {"bound_edits": {}, "decls": decls, "layout": "form-sweep:" + form, "kind": "optimal", "c": c, "c0": 0.0, "sense": obj_sense,
+            "rows": rows, "objective": obj, "constraints": cons}
+
+
+def block_lp(rng, form, sense):
+    """Like form_lp for element-wise *blocks*: a vector / matrix constraint producing several rows at once (array minus matrix-vector
+    product, matrix variable against a non-symmetric array, ...)."""
+    if form in ("X-vs-array", "k*X-c-vs-array", "array-vs-X"):
+        r_, c_ = rng.choice([(2, 2), (3, 3), (2, 3), (3, 2)])
+        decls = [{"k": "mat", "name": "X", "r": r_, "c": c_, "lb": 0.0, "ub": 8.0}]
+        W = Writer(rng, decls, risky=True)
+        names = list(W.names)
+        U = [[1.0 + ((3 * i + 5 * j + i * j) % 7) * 0.5 for j in range(c_)] for i in range(r_)]  # not symmetric
+        X = ["mat", "X"]
+        if form == "X-vs-array":
+            cons = [["rel", sense, X, ["arr2", U], "direct"]]
+            rows = [{"coef": {W.D.mat_names("X")[i][j]: 1.0}, "sense": sense, "rhs": U[i][j]} for i in range(r_) for j in range(c_)]
+        elif form == "array-vs-X":
+            # written with the array on the left:  U >= X  is  X <= U
+            flip = {"<=": ">=", ">=": "<=", "==": "=="}[sense]
+            cons = [["rel", flip, X, ["arr2", U], "reflected"]] if sense != "==" else [["rel", "==", X, ["arr2", U], "direct"]]
+            rows = [{"coef": {W.D.mat_names("X")[i][j]: 1.0}, "sense": flip, "rhs": U[i][j]} for i in range(r_) for j in range(c_)]
+            sense = flip
+        else:
+            k = rng.choice([2.0, 0.5, 4.0])
+            cst = rng.choice([1.0, -0.5, 2.0])
+            cons = [["rel", sense, ["mbin", "-", ["mbin", "*", X, ["raw", k, "float"]], ["raw", cst, "float"]], ["arr2", U], "direct"]]
+            rows = [{"coef": {W.D.mat_names("X")[i][j]: k}, "sense": sense, "rhs": U[i][j] + cst} for i in range(r_) for j in range(c_)]
+        c = {nm: 1.0 + 0.25 * i for i, nm in enumerate(names)}
+    else:
+        n = rng.randint(2, 4)
+        decls = [{"k": "vec", "name": "x", "n": n, "lb": 0.0, "ub": 6.0}]
+        W = Writer(rng, decls, risky=True)
+        names = list(W.names)
+        x = ["vec", "x"]
+        m = rng.randint(1, 3)
+        M = [[abs(q(rng, 1, 3, nz=True)) for _ in range(n)] for _ in range(m)]
+        feas = [1.0 + int(8 * rng.random()) / 4 for _ in range(n)]
+        at = [sum(a * f for a, f in zip(row, feas)) for row in M]
+        if form == "b-M@v":
+            # b - M x (s') 0   <=>   M x (s) b      with s' the mirrored sense
+            flip = {"<=": ">=", ">=": "<=", "==": "=="}[sense]
+            cons = [["rel", flip, ["vrbin", "-", ["arr", at], ["mv", M, x]], ["raw", 0.0, "float"], "direct"]]
+            rows = [{"coef": {nm: -a for nm, a in zip(names, row)}, "sense": flip, "rhs": -b} for row, b in zip(M, at)]
+            sense = sense
+        elif form == "M@(v-s)":
+            ss = [q(rng, -2, 2) for _ in range(n)]
+            shift = [sum(a * t for a, t in zip(row, ss)) for row in M]
+            cons = [["rel", sense, ["mv", M, ["vbin", "-", x, ["arr", ss]]], ["arr", [b - sh for b, sh in zip(at, shift)]], "direct"]]
+            rows = [{"coef": {nm: a for nm, a in zip(names, row)}, "sense": sense, "rhs": b} for row, b in zip(M, at)]
+        else:  # "b0-k*v":  b0 - k x (s') -k feas + b0  element-wise
+            k = rng.choice([2.0, 0.5, 4.0])
+            b0 = q(rng, 1, 3, nz=True)
+            flip = {"<=": ">=", ">=": "<=", "==": "=="}[sense]
+            cons = [["rel", flip, ["vrbin", "-", ["raw", b0, "float"], ["vbin", "*", x, ["raw", k, "float"]]], ["arr", [b0 - k * f for f in feas]], "direct"]]
+            rows = [{"coef": {nm: -k}, "sense": flip, "rhs": -k * f} for nm, f in zip(names, feas)]
+        c = {nm: 1.0 + 0.25 * i for i, nm in enumerate(names)}
+    # the objective pushes against the rows as they are *meant* (x <= cap: maximise; x >= floor: minimise)
+    meant = rows[0]["sense"] if all(v > 0 for v in rows[0]["coef"].values()) else {"<=": ">=", ">=": "<=", "==": "=="}[rows[0]["sense"]]
+    obj_sense = {"<=": "max", ">=": "min", "==": rng.choice(["min", "max"])}[meant]
+    obj = None
+    for nm, v in c.items():
+        t = ["bin", "*", ["raw", v, "float"], W.elem[nm]]
+        obj = t if obj is None else ["bin", "+", obj, t]
+    return {"bound_edits": {}, "decls": decls, "layout": "block-sweep:" + form, "kind": "optimal", "c": c, "c0": 0.0, "sense": obj_sense,
+            "rows": rows, "objective": obj, "constraints": cons}
+
+
 def mentioned_names(lp):
     """Independent syntactic variable set of the written model, natural order."""
     D = R.Decls(lp["decls"])
@@ -642,9 +782,13 @@ def constraint_values(D, cnode, pt, alg_factory):
     it = R.Interp(D, alg)
     from .ast import VECTOR_KINDS
 
+    from .ast import MATRIX_KINDS
+
     def side(n):
         if n[0] in VECTOR_KINDS:
             return it.V(n)
+        if n[0] in MATRIX_KINDS:
+            return [x for row in it.M(n) for x in row]  # row-major, the order in which element-wise constraints are produced
         return [it.S(n)]
 
     L, Rr = side(cnode[2]), side(cnode[3])
